@@ -88,11 +88,11 @@ def run_model(md, root_lib, cfgname, ops, timeout=60):
         raise RuntimeError("model failed: " + r.stderr[-2000:])
     return r.stdout
 
-def split_ops(out):
+def split_ops(out, keep_comments=False):
     """split a trace into per-operation blocks, dropping harness comment lines"""
     blocks, cur = [], []
     for line in out.splitlines():
-        if line.startswith("#"):
+        if line.startswith("#") and not keep_comments:
             continue
         if line == "--":
             blocks.append(cur); cur = []
@@ -110,10 +110,15 @@ def compare(md, cfgname, ops, exe=None):
             return {"ok": False, "build_error": err}
     ids = read_ids(exe)
     root_lib = msmgen.renumber(md["root"], ids)
-    impl_out, rc = run_impl(exe, ops)
     model_out = run_model(md, root_lib, cfgname, ops)
+    if any(l.startswith("BAD") for l in model_out.splitlines()):
+        return {"ok": True, "impl": [], "model": split_ops(model_out), "bad": True, "rc": 0, "root_lib": root_lib}
+    impl_out, rc = run_impl(exe, ops)
     bi, bm = split_ops(impl_out), split_ops(model_out)
-    res = {"ok": True, "impl": bi, "model": bm, "bad": any(l.startswith("BAD") for b in bm for l in b), "rc": rc}
+    res = {"ok": True, "impl": bi, "model": bm, "bad": any(l.startswith("BAD") for b in bm for l in b), "rc": rc,
+           "root_lib": root_lib, "impl_raw": split_ops(impl_out, True)}
+    if res["bad"]:
+        return res      # the model refuses the case (re-entrancy / fuel / unsupported shape): not comparable
     for k in range(max(len(bi), len(bm))):
         a = bi[k] if k < len(bi) else None
         b = bm[k] if k < len(bm) else None
